@@ -49,15 +49,23 @@ def repo_key():
     return tree_hash([os.path.join(REPO, 'src', 'cntgs')])
 
 
-def harness_key():
-    return tree_hash([os.path.join(VERIF, 'harness')])
+HARNESS_SETS = {
+    'history': ['common.hpp', 'ledger.hpp', 'values.hpp', 'meta.hpp', 'runner.hpp', 'runner_ext.inc', 'runner_all.hpp',
+                'profiles.hpp', 'engine_rc.cpp', 'engine_fuzz.cpp', 'engine_c17.cpp'],
+    'c15': ['common.hpp', 'c15.hpp', 'engine_c15.cpp'],
+    'c19': ['common.hpp', 'c19.hpp', 'engine_c19.cpp', 'values.hpp', 'ledger.hpp', 'meta.hpp'],
+}
+
+
+def harness_key(which='history'):
+    return tree_hash([os.path.join(VERIF, 'harness', f) for f in HARNESS_SETS[which] if os.path.exists(os.path.join(VERIF, 'harness', f))])
 
 
 class Builder:
     """Content-addressed build cache: build/<repo-key>-<harness-key>/"""
 
-    def __init__(self, extra_flags=(), tag='asan'):
-        self.key = repo_key() + '-' + harness_key() + '-' + tag
+    def __init__(self, extra_flags=(), tag='asan', harness='history'):
+        self.key = repo_key() + '-' + harness_key(harness) + '-' + tag
         self.dir = os.path.join(BUILD_ROOT, self.key)
         os.makedirs(self.dir, exist_ok=True)
         self.flags = BASE_FLAGS + (SAN_FLAGS if tag == 'asan' else list(extra_flags)) + \
@@ -120,7 +128,7 @@ class Builder:
             fcntl.flock(self.lock, fcntl.LOCK_UN)
 
 
-def prune_build_cache(keep=3):
+def prune_build_cache(keep=6):
     if not os.path.isdir(BUILD_ROOT):
         return
     ds = [os.path.join(BUILD_ROOT, d) for d in os.listdir(BUILD_ROOT) if os.path.isdir(os.path.join(BUILD_ROOT, d))]
@@ -173,6 +181,15 @@ def pool_for(pid, tier, seed):
         return allp + extra
     if n in (13, 14):
         return [c for c in allp if 'moveonly' not in c['tags']]
+    if n == 17:
+        names = ['u32_float__A0000', 'Ffloat_u32_Ffloat__A0000', 'FTracked_u8__A0000', 'u8_Vu8_u16__A0000', 'u8_VTracked__A0000',
+                 'u8_VTracked_u16_FTracked__A0000', 'u16_VTrackeda8_u32a4__A0000', 'Fu8_u8a4_Fu8__A0000', 'FTrackedMO_TrackedMO__A0000',
+                 'u8_VTrackedMO_u8__A0000', 'u8_Vstring__A0000', 'u8_Vu8_Tracked__A0000']
+        base = [c for c in core if c['name'] in names]
+        kinds = [c for c in cfggen.allocator_pool() if c['alloc'] in ((False, False, False, False), (True, True, True, False), (False, False, False, True), (True, False, False, False), (False, True, False, False))]
+        if tier == 'quick':
+            kinds = kinds[::2]
+        return base + kinds + (rnd[:4] if tier == 'quick' else rnd[:16])
     return allp
 
 
@@ -182,6 +199,7 @@ BUDGET = {
     'C05': (500, 25, 8000, 60), 'C06': (800, 30, 15000, 80), 'C07': (600, 30, 10000, 80), 'C08': (300, 14, 4000, 30),
     'C09': (600, 24, 10000, 60), 'C10': (600, 25, 10000, 70), 'C11': (600, 25, 10000, 60), 'C12': (600, 22, 10000, 50),
     'C13': (800, 24, 15000, 40), 'C14': (800, 24, 15000, 40), 'C16': (600, 30, 10000, 80), 'C18': (600, 18, 10000, 40),
+    'C17': (120, 12, 2500, 30),
 }
 
 RULES = {
@@ -348,6 +366,9 @@ def run_history_property(pid, tier, seed, rule, level='exploration', extra_cov=N
         for k in ('ops_executed', 'ops_skipped', 'ops_repaired', 'oracle_checks'):
             ev[k] += s[k]
         ev['steered_away_from_known_findings'] += s['guarded']
+        if s.get('fault_runs'):
+            ev['fault_injected_runs'] = ev.get('fault_injected_runs', 0) + s['fault_runs']
+            ev['cases_with_two_or_more_allocations_in_target_op'] = ev.get('cases_with_two_or_more_allocations_in_target_op', 0) + s['fault_cases_with_two_or_more_allocations']
         for k, v in s['kinds'].items():
             ev['op_kinds'][k] = ev['op_kinds'].get(k, 0) + v
         for k, v in s['labels'].items():
